@@ -782,8 +782,9 @@ def rule_errtype(ctx):
 
 
 def run(ctx):
-    from ..rules import fixedconv, sC05
-    return [rule_ctx(ctx), rule_sent(ctx), rule_digits(ctx), rule_api(ctx), fixedconv.rule_fixed(ctx), sC05.rule_neg(ctx), sC05.rule_model(ctx), rule_errtype(ctx)]
+    from ..rules import fixedconv, sC05, dD7
+    return [rule_ctx(ctx), rule_sent(ctx), rule_digits(ctx), rule_api(ctx), fixedconv.rule_fixed(ctx), sC05.rule_neg(ctx), sC05.rule_model(ctx), rule_errtype(ctx),
+            dD7.rule_index(ctx), dD7.rule_nonint(ctx)]
 
 
 MUTATIONS = [
